@@ -846,3 +846,12 @@ func normalizeCond(cond ssa.Value, val bool) (ssa.Value, bool) {
 	}
 	return &ssa.BinOp{Op: op, X: x, Y: y}, val
 }
+
+// pkgOfType: import path of the package that declares the (pointed-to) named type, "" for unnamed types.
+func pkgOfType(t types.Type) string {
+	n := namedOf(t)
+	if n == nil || n.Obj().Pkg() == nil {
+		return ""
+	}
+	return n.Obj().Pkg().Path()
+}
